@@ -644,3 +644,78 @@ Proof.
   - intros a b Wa Wb. destruct (d2add_spec false a b Wa Wb ltac:(discriminate)) as (_ & _ & _ & C & _). apply C.
   - intros f a Wa. destruct (wf2_xmul f a Wa) as (_ & _ & _ & C). apply C.
 Qed.
+
+(* ------------------------------------------------------------------ value of ONE basis function at a
+   dual abscissa (bsplev_single_dual / bsplev_single_dual2): with org_k = None it is the m = 0 case of
+   the derivative evaluation, hence value B_i(re X), slope B_i'(re X) * dX, and at second order
+   B_i' * X_uv + 1/2 B_i'' * X_u X_v *)
+Lemma bsplev_dual_is_dn (X : dual R) i k t : bsplev_dual X i k t None = bspldnev_dual X i k t 0 None.
+Proof. reflexivity. Qed.
+Lemma bsplev_dual2_is_dn (X : dual2 R) i k t : bsplev_dual2 X i k t None = bspldnev_dual2 X i k t 0 None.
+Proof. reflexivity. Qed.
+Lemma bsplev_dual_spec (X : dual R) : wf X -> forall i k t D,
+  bsplev_dual X i k t None = Ok D ->
+  exists b db, bsplev (re X) i k t None = Ok b /\ bspldnev (re X) i k t 1 None = Ok db /\
+               wf D /\ vs D = vs X /\ re D = b /\ forall v, coef D v = db * coef X v.
+Proof.
+  intros WX i k t D E. destruct (bspldnev_dual_spec X WX i k t 0 D E) as (b & db & A & B & W & R & C).
+  exists b, db. repeat split; auto; try apply W.
+  revert E. unfold bsplev_dual, dual_clone_from.
+  destruct (bsplev (re X) i k t None); cbn [obind]; try discriminate.
+  destruct (bspldnev (re X) i k t 1 None); cbn [obind]; try discriminate.
+  destruct (Nat.eqb _ _); [|discriminate]. intros [= <-]. reflexivity.
+Qed.
+Lemma bsplev_dual2_spec (X : dual2 R) : wf2 X -> forall i k t D,
+  bsplev_dual2 X i k t None = Ok D ->
+  exists b db d2b, bsplev (re2 X) i k t None = Ok b /\ bspldnev (re2 X) i k t 1 None = Ok db /\
+                   bspldnev (re2 X) i k t 2 None = Ok d2b /\
+                   wf2 D /\ vs2 D = vs2 X /\ re2 D = b /\ (forall v, coef1 D v = db * coef1 X v) /\
+                   forall u v, coef2 D u v = db * coef2 X u v + (/ 2 * d2b) * (coef1 X u * coef1 X v).
+Proof.
+  intros WX i k t D E. destruct (bspldnev_dual2_spec X WX i k t 0 D E) as (b & db & d2b & A & B & B2 & W & R & C1 & C2).
+  exists b, db, d2b. repeat split; auto; try apply W.
+  revert E. unfold bsplev_dual2, dual2_clone_from.
+  destruct (bsplev (re2 X) i k t None); cbn [obind]; try discriminate.
+  destruct (bspldnev (re2 X) i k t 1 None); cbn [obind]; try discriminate.
+  destruct (bspldnev (re2 X) i k t 2 None); cbn [obind]; try discriminate.
+  match goal with |- (if ?c then _ else _) = _ -> _ => destruct c; try discriminate end.
+  intros [= <-]. reflexivity.
+Qed.
+
+(* the vector form PPSpline::bspldnev: entry j is the m-th derivative of basis function i at x_j *)
+Lemma pp_bspldnev_spec {T : Type} {H : Num T} {E : Type} (s : @ppspline T E) xs i m ys :
+  pp_bspldnev s xs i m = Ok ys ->
+  length ys = length xs /\
+  forall j x, nth_error xs j = Some x -> exists y, nth_error ys j = Some y /\ bspldnev x i (pk s) (pt s) m None = Ok y.
+Proof.
+  intros HM. split; [apply (omapM_length _ _ _ HM)|]. intros j x Hx. apply (omapM_nth _ _ _ _ _ HM Hx).
+Qed.
+
+(* PartialEq for PPSpline: equal order, knot count, knots, and coefficients (both absent, or both present
+   and pairwise equal under the coefficient type's own ==); over R with an == that decides equality this
+   is equality of the four fields *)
+Lemma vec_eqb_gen_spec {A} (e : A -> A -> bool) : (forall x y, e x y = true <-> x = y) ->
+  forall a b, vec_eqb_gen e a b = true <-> a = b.
+Proof.
+  intros He. induction a as [|x a IH]; intros [|y b]; cbn; split; intros Q; try congruence; try reflexivity.
+  - apply andb_true_iff in Q. destruct Q as [Q1 Q2]. apply He in Q1. apply IH in Q2. congruence.
+  - inversion Q; subst. apply andb_true_iff. split; [apply He; reflexivity|apply IH; reflexivity].
+Qed.
+Lemma Reqb_spec x y : Reqb x y = true <-> x = y.
+Proof. unfold Reqb. destruct (Req_EM_T x y); split; intros; auto; discriminate. Qed.
+Lemma pp_eqb_spec {E} (e : E -> E -> bool) : (forall x y, e x y = true <-> x = y) ->
+  forall a b : @ppspline R E, pp_eqb e a b = true <-> (pk a = pk b /\ pn a = pn b /\ pt a = pt b /\ pc a = pc b).
+Proof.
+  intros He a b. unfold pp_eqb.
+  destruct (Nat.eqb_spec (pk a) (pk b)) as [K|K]; cbn [negb orb]; [|split; [discriminate|intros (A & _); contradiction]].
+  destruct (Nat.eqb_spec (pn a) (pn b)) as [N|N]; cbn [negb]; [|split; [discriminate|intros (_ & A & _); contradiction]].
+  pose proof (vec_eqb_gen_spec (A:=R) neqb Reqb_spec (pt a) (pt b)) as HT.
+  destruct (vec_eqb_gen neqb (pt a) (pt b)); cbn [negb].
+  - assert (Tq : pt a = pt b) by (apply HT; reflexivity).
+    destruct (pc a) as [x|], (pc b) as [y|]; split; intros Q; try discriminate; repeat split; auto.
+    + f_equal. apply (vec_eqb_gen_spec e He). exact Q.
+    + destruct Q as (_ & _ & _ & Q). inversion Q. apply (vec_eqb_gen_spec e He). reflexivity.
+    + destruct Q as (_ & _ & _ & Q). discriminate.
+    + destruct Q as (_ & _ & _ & Q). discriminate.
+  - split; [discriminate|]. intros (_ & _ & A & _). apply HT in A. discriminate.
+Qed.
